@@ -28,6 +28,8 @@ def drive : List String → String
       let vis := after L (some start)
       let eff := effectivePageSize ps
       if layers.contains "wire" ∧ mx > 0 ∧ eff > (mx : Int) then "yield [] end=error calls=1"
+      -- a failing member below the wire: the server cannot send half a listing; the request fails
+      else if layers.contains "unifyerr" ∧ (layers.dropWhile (· != "unifyerr")).contains "wire" then "yield [] end=error calls=1"
       else
         let kk : Option Nat := if k == "-" then none else k.toNat?
         let (d, _, stop) := deliver vis kk
